@@ -137,6 +137,10 @@ pub enum TokFault {
     /// move the last `n` bytes of the whole payload segment to the footer front (crosses the tag)
     ShiftPayloadToFooter { n: usize },
     FooterReplace { hex: String },
+    /// a re-encoding proxy rewrites a JSON footer into different bytes with the same meaning:
+    /// 0 trailing space, 1 pretty-printed, 2 one character \\u-escaped, 3 extra member appended,
+    /// 4 leading newline, 5 members in reverse order
+    FooterJsonVariant { variant: u8 },
     FooterRemove,
     AadReplace { hex: String },
     AadFlip { byte: usize, bit: u8 },
@@ -154,6 +158,10 @@ pub enum TokFault {
     TextReplace { at: usize, ch: char },
     /// text-level: replace the character `back` positions from the end (1 = last)
     TextReplaceBack { back: usize, ch: char },
+    /// text-level: remove `n` characters starting at `at`
+    TextRemoveRange { at: usize, n: usize },
+    /// text-level: duplicate the `n` characters starting at `at` in place
+    TextDupRange { at: usize, n: usize },
     /// text-level: drop the last `n` characters
     TextDropBack { n: usize },
     /// text-level: add a segment ".xxxx" at the end
@@ -321,6 +329,39 @@ pub fn apply_tok_fault(d: &mut Delivered, f: &TokFault) -> bool {
                 }
             }
         }
+        TokFault::FooterJsonVariant { variant } => {
+            if let Some(mut p) = parts {
+                if let Ok(v) = serde_json::from_slice::<serde_json::Value>(&p.footer) {
+                    let orig = String::from_utf8_lossy(&p.footer).to_string();
+                    let new: Option<String> = match variant % 6 {
+                        0 => Some(format!("{orig} ")),
+                        1 => serde_json::to_string_pretty(&v).ok(),
+                        2 => {
+                            // escape the first alphanumeric character that follows a quote
+                            let b = orig.as_bytes();
+                            (0..b.len().saturating_sub(1)).find(|i| b[*i] == b'"' && b[i + 1].is_ascii_alphanumeric()).map(|i| format!("{}\\u{:04x}{}", &orig[..=i], b[i + 1], &orig[i + 2..]))
+                        }
+                        3 => v.as_object().map(|_| {
+                            let t = orig.trim_end();
+                            let inner = &t[..t.len() - 1];
+                            if inner.trim_end().ends_with('{') { format!("{inner}\"zz\":true}}") } else { format!("{inner},\"zz\":true}}") }
+                        }),
+                        4 => Some(format!("\n{orig}")),
+                        _ => v.as_object().filter(|o| o.len() >= 2).map(|o| {
+                            let items: Vec<String> = o.iter().rev().map(|(k, v)| format!("{}:{}", serde_json::to_string(k).unwrap_or_default(), v)).collect();
+                            format!("{{{}}}", items.join(","))
+                        }),
+                    };
+                    if let Some(n) = new {
+                        if n.as_bytes() != &p.footer[..] {
+                            p.footer = n.into_bytes();
+                            d.text = p.render();
+                            changed = true;
+                        }
+                    }
+                }
+            }
+        }
         TokFault::FooterRemove => {
             if let Some(mut p) = parts {
                 if !p.footer.is_empty() {
@@ -430,6 +471,25 @@ pub fn apply_tok_fault(d: &mut Delivered, f: &TokFault) -> bool {
                 }
             }
         }
+        TokFault::TextRemoveRange { at, n } => {
+            let chars: Vec<char> = d.text.chars().collect();
+            if *n >= 1 && at + n <= chars.len() {
+                let mut c2 = chars;
+                c2.drain(*at..at + n);
+                d.text = c2.into_iter().collect();
+                changed = true;
+            }
+        }
+        TokFault::TextDupRange { at, n } => {
+            let chars: Vec<char> = d.text.chars().collect();
+            if *n >= 1 && at + n <= chars.len() {
+                let dup: Vec<char> = chars[*at..at + n].to_vec();
+                let mut c2 = chars;
+                c2.splice(*at..*at, dup);
+                d.text = c2.into_iter().collect();
+                changed = true;
+            }
+        }
         TokFault::TextDropBack { n } => {
             let chars: Vec<char> = d.text.chars().collect();
             if *n >= 1 && *n <= chars.len() {
@@ -477,6 +537,7 @@ impl TokFault {
             TokFault::ShiftPayloadToFooter { .. } => "shift-payload-footer",
             TokFault::FooterReplace { .. } => "footer-replace",
             TokFault::FooterRemove => "footer-remove",
+            TokFault::FooterJsonVariant { .. } => "footer-json-reencoded",
             TokFault::AadReplace { .. } => "aad-replace",
             TokFault::AadFlip { .. } => "aad-flip",
             TokFault::Relabel { .. } => "relabel",
@@ -487,6 +548,8 @@ impl TokFault {
             TokFault::TextReplace { .. } => "text-replace",
             TokFault::TextReplaceBack { .. } => "text-replace-tail",
             TokFault::TextDropBack { .. } => "text-drop-tail",
+            TokFault::TextRemoveRange { .. } => "text-remove-range",
+            TokFault::TextDupRange { .. } => "text-dup-range",
             TokFault::TextExtraSegment { .. } => "text-extra-segment",
             TokFault::TextTrailingDot => "text-trailing-dot",
             TokFault::TextHeaderCase => "text-header-case",
